@@ -46,6 +46,9 @@ import (
 //	addk e A,_,B | delk e A,B     Node.AddKinds / Node.DeleteKinds   (_ = nil Kind, AddKinds only; nodes only)
 //	intern <goroutines> <rounds>  concurrency probe of the kind factory: that many goroutines call graph.StringKind on the
 //	                              same NEW name at once, <rounds> names; answers `interned` when every name got ONE handle
+//	internscale <n>               SCALE probe of the kind factory: intern <n> distinct new names, then a late new name must
+//	                              still get ONE handle across repeated calls; answers `interned`. The late name is kind Z:
+//	addlate e | dellate e         Node.AddKinds / Node.DeleteKinds with a separately obtained handle of the late name
 //	hold e                        a caller keeps the current header `ks := n.Kinds`; from then on the answer carries a
 //	                              fourth segment `H=<contents of every kept header, re-read now>`          (nodes only)
 //	json e                        e = unmarshal(marshal(e)) with encoding/json (a node inside a graph.NodeSet, a
@@ -199,6 +202,8 @@ func c12KindsStr(ks graph.Kinds) string {
 	for i, k := range ks {
 		if k == nil {
 			out[i] = "_"
+		} else if strings.HasPrefix(k.String(), "c12late") {
+			out[i] = "Z" // the late kind of an internscale probe
 		} else if _, foreign := k.(c12OtherKind); foreign {
 			out[i] = k.String() + "!"
 		} else {
@@ -238,6 +243,7 @@ type c12Runner struct {
 	callerKinds [2][]graph.Kind
 	callerCopy  [2][]graph.Kind
 	held        []graph.Kinds
+	lateName    string // the late kind of the last internscale probe, shown as Z
 	// consumers (drivers/pg batch builders)
 	sm  *pg.SchemaManager
 	enc pg.Int2ArrayEncoder
@@ -453,6 +459,13 @@ func (r *c12Runner) Step(t []string, raw string) string {
 	}
 	if len(t) >= 3 && t[0] == "load" {
 		return r.load(t)
+	}
+	if len(t) == 2 && t[0] == "internscale" {
+		n, err := strconv.Atoi(t[1])
+		if err != nil || n < 0 || n > 1000000 || r.n[0] == nil && r.r[0] == nil {
+			return "bad-op"
+		}
+		return r.withDump(r.internScaleProbe(n))
 	}
 	if len(t) == 3 && t[0] == "intern" {
 		g, err1 := strconv.Atoi(t[1])
@@ -692,6 +705,18 @@ func (r *c12Runner) Step(t []string, raw string) string {
 		return r.withDump("ok")
 	case t[0] == "drv" && len(t) == 2:
 		return r.withDump(r.drv(n))
+	case (t[0] == "addlate" || t[0] == "dellate") && len(t) == 2:
+		if r.lateName == "" {
+			return "bad-op"
+		}
+		late := graph.StringKind(r.lateName) // a handle of its own for every operation
+		if t[0] == "addlate" {
+			n.AddKinds(late)
+		} else {
+			n.DeleteKinds(late)
+		}
+		st.Inc("branch.internscale.delta_op")
+		return r.withDump("ok")
 	case t[0] == "strip" && len(t) == 3:
 		var keep []string
 		if t[2] != "-" {
@@ -752,6 +777,30 @@ func (r *c12Runner) jsonRoundTrip(e int) string {
 	r.n[e] = decoded
 	r.callerKinds[e], r.callerCopy[e] = nil, nil
 	return "ok"
+}
+
+// internScaleProbe: SCALE. First `n` distinct, never used kind names are interned (the kind cache is process wide and
+// keeps whatever earlier cases put there: the prefix makes these names new whatever came before), then a late name, new
+// as well, must still be interned to ONE handle across repeated calls. The late name stays the runner's `Z` kind:
+// `addlate e` / `dellate e` run Node.AddKinds / Node.DeleteKinds with a SEPARATELY obtained handle of it each time.
+func (r *c12Runner) internScaleProbe(n int) string {
+	seq := c12InternSeq.Add(1)
+	for i := 0; i < n; i++ {
+		graph.StringKind(fmt.Sprintf("c12scale%d_%d", seq, i))
+	}
+	r.lateName = fmt.Sprintf("c12late%d", seq)
+	first := graph.StringKind(r.lateName)
+	r.stats.Add("branch.internscale.names", int64(n))
+	if n >= 32768 {
+		r.stats.Inc("branch.internscale.past_int16")
+	}
+	for i := 0; i < 4; i++ {
+		if graph.StringKind(r.lateName) != first {
+			r.stats.Inc("branch.internscale.split")
+			return "interning-split"
+		}
+	}
+	return "interned"
 }
 
 // c12InternSeq makes every probed kind name new to the process-wide kind cache.
@@ -1190,6 +1239,12 @@ func (c12Suite) Gen(rng *Rng, tier string, w *bufio.Writer, stats *Stats) {
 			emit("rand", load, ops)
 		}
 		stats.Inc("random_cases")
+	}
+	// LAST (the kind cache is process wide: these cases fill it, and under a capped cache every later case that meets a
+	// new kind name would fail for the same reason and could not be replayed on its own)
+	// the kind factory at scale: a kind name first seen after many distinct names must still be one handle
+	for _, n := range []int{10, 32766, 32767, 32768, 70000} {
+		emit("internscale", "nil A,B", []string{fmt.Sprintf("internscale %d", n), "addlate 0", "dellate 0", "addlate 1", "merge 0 1", "dellate 1", "addlate 0", "dellate 0"})
 	}
 	c12Probes(stats)
 }
